@@ -1152,6 +1152,13 @@ def mon_C12(blocks):
                     if y in pre and la(post[y]) == la(pre[y]) and la(pre[y]) < la(pre[x]):
                         out.append(Violation(b.idx, "session %s (last access %s) was evicted although %s (last access %s) is older" % (x, pre[x]["la"], y, pre[y]["la"])))
                         break
+        # room is made only when it is needed: after a size eviction the cache is full
+        if N > 0 and left and k != "purge" and not deleted and len(post) < N:
+            ce = a.cfg["cacheExpiry"]
+            for x in left:
+                if b.t - la(pre[x]) <= ce:
+                    out.append(Violation(b.idx, "session %s was evicted although only %d of %d places are taken" % (x, len(post), N)))
+                    break
         # idle sessions are dropped at the next cache write
         if inserted:
             ce = a.cfg["cacheExpiry"]
